@@ -326,7 +326,7 @@ func dispatch(l []byte, gc genericCase) childRes {
 				break
 			}
 		}
-		cl := "C20"
+		cl := "C20" + c.Kind
 		for _, b := range c.Channels {
 			cl += fmt.Sprintf("/%s-%s-", b.Side, b.Mode)
 			for _, pm := range b.Plan {
@@ -370,7 +370,7 @@ func garbageClass(r *GRow) string {
 
 func behClass(b *Beh) string {
 	if b.Kind == "flood" {
-		return fmt.Sprintf("C13/flood/%s/%s/%dx%d", b.Side, b.Mode, len(b.Plan), b.Plan[0].Cut)
+		return fmt.Sprintf("C13/flood/%s/%s/%s/%dmsgs-%dchunks", b.Side, b.Mode, b.Split, len(b.Plan), len(b.Chunks))
 	}
 	var mv []string
 	for _, st := range b.Steps {
